@@ -105,6 +105,8 @@ func (x *Exec) verifyUnit(fn *ssa.Function) {
 			}
 		}
 	}
+	unitInputs[fnName(fn)] = x.describeInputs(st, fn, fr)
+	unitFuncs[fnName(fn)] = fn
 	x.inputSize = "0"
 	for _, t := range sizeTerms {
 		x.inputSize = tAdd(x.inputSize, t)
